@@ -930,6 +930,10 @@ class NumaNode(Node):
             for nd in self.numa_domains.values():
                 slot = nd.find_slot(rr)
                 if slot:
+                    # lfs and mem are accounted on node level (the domains
+                    # have none), and are credited on node level on release
+                    if self.lfs is not None: self.lfs -= slot.lfs
+                    if self.mem is not None: self.mem -= slot.mem
                     return slot
 
 # ------------------------------------------------------------------------------
